@@ -288,7 +288,57 @@ Definition dirname_of (g : rloc) : path := if r_trail g then r_comps g else pare
 
 (* result of a file operation: the new file system and, on success, the path
    that was written *)
-Inductive res := Ok (fs : fsys) (e : path) | Fail (fs : fsys).
+Inductive res :=
+| Ok (fs : fsys) (e : path)          (* a file was written at e *)
+| OkDir (fs : fsys) (e : path)       (* a directory tree was copied / moved to e *)
+| Fail (fs : fsys).
+
+(* ---- directory trees (cp -r <dir>, shutil.move <dir>, rm -r) *)
+Fixpoint is_prefix (a b : path) : bool :=
+  match a, b with
+  | [], _ => true
+  | x :: a', y :: b' => String.eqb x y && is_prefix a' b'
+  | _, [] => false
+  end.
+
+Definition under (s : path) (x : path * node) : bool := is_prefix s (fst x).
+Definition rebase (s e : path) (x : path * node) : path * node :=
+  (e ++ skipn (List.length s) (fst x), snd x).
+
+(* everything at and below s also appears at and below e *)
+Definition copy_tree (s e : path) (fs : fsys) : fsys := map (rebase s e) (filter (under s) fs) ++ fs.
+Definition del_tree (s : path) (fs : fsys) : fsys := filter (fun x => negb (under s x)) fs.
+Definition move_tree (s e : path) (fs : fsys) : fsys :=
+  map (rebase s e) (filter (under s) fs) ++ del_tree s fs.
+
+(* a file of the tree would land on a directory or a directory on a file *)
+Definition tree_conflict (s e : path) (fs : fsys) : bool :=
+  existsb (fun x => match snd (rebase s e x), lookup (fst (rebase s e x)) fs with
+                    | D, Some (F _) => true
+                    | F _, Some D => true
+                    | _, _ => false
+                    end) (filter (under s) fs).
+
+(* `cp -r <dir s> g`: into g if g is a directory (merging), else as g *)
+Definition cp_dir (s : path) (g : rloc) (fs : fsys) : res :=
+  let gd := is_dir (r_comps g) fs in
+  let e := if gd then r_comps g ++ [last s EmptyString] else r_comps g in
+  if r_trail g && negb gd then Fail fs
+  else if is_prefix s e then Fail fs                      (* into itself *)
+  else if negb gd && exists_at e fs then Fail fs          (* directory over a file *)
+  else if negb (is_dir (parent e) fs) then Fail fs
+  else if tree_conflict s e fs then Fail fs
+  else OkDir (copy_tree s e fs) e.
+
+(* shutil.move(<dir s>, g) *)
+Definition mv_dir (s : path) (g : rloc) (fs : fsys) : res :=
+  let gd := is_dir (r_comps g) fs in
+  let e := if gd then r_comps g ++ [last s EmptyString] else r_comps g in
+  if r_trail g && negb gd then Fail fs
+  else if is_prefix s e then Fail fs
+  else if exists_at e fs then Fail fs
+  else if negb (is_dir (parent e) fs) then Fail fs
+  else OkDir (move_tree s e fs) e.
 
 (* `cp -r <file> g` with content c, source base name b *)
 Definition cp_into (c : content) (b : string) (s : option path) (g : rloc) (fs : fsys) : res :=
@@ -308,7 +358,7 @@ Definition op_copy (s g : rloc) (fs : fsys) : res :=
   | Some fs1 =>
       if r_empty s then Fail fs1 else
       match file_at (r_comps s) fs1 with
-      | None => Fail fs1
+      | None => if is_dir (r_comps s) fs1 then cp_dir (r_comps s) g fs1 else Fail fs1
       | Some c => cp_into c (last (r_comps s) EmptyString) (Some (r_comps s)) g fs1
       end
   end.
@@ -321,7 +371,7 @@ Definition op_move (s g : rloc) (fs : fsys) : res :=
   | Some fs1 =>
       if r_empty s then Fail fs1 else
       match file_at (r_comps s) fs1 with
-      | None => Fail fs1
+      | None => if is_dir (r_comps s) fs1 then mv_dir (r_comps s) g fs1 else Fail fs1
       | Some c =>
           let gd := is_dir (r_comps g) fs1 in
           let e := if gd then r_comps g ++ [last (r_comps s) EmptyString] else r_comps g in
@@ -391,6 +441,21 @@ Definition tstate_eqb (a b : tstate) : bool :=
 Record sandboxes := { sb_client : string; sb_task : string; sb_pilot : string;
                       sb_session : string; sb_resource : string; sb_endpoint : string }.
 
+(* what the payload (or the user) does to the sandboxes while the task runs:
+   remove a file / directory tree, rename one *)
+Inductive xop := XRm (p : path) | XMv (p q : path).
+
+Definition run_xop (o : xop) (fs : fsys) : fsys :=
+  match o with
+  | XRm p => match p with [] => fs | _ => del_tree p fs end
+  | XMv p q =>
+      match p with
+      | [] => fs
+      | _ => if exists_at p fs && negb (exists_at q fs) && is_dir (parent q) fs && negb (is_prefix p q)
+             then move_tree p q fs else fs
+      end
+  end.
+
 Record task := {
   t_uid : string;
   t_sb : sandboxes;
@@ -399,23 +464,24 @@ Record task := {
   t_soe : bool;                   (* stage_on_error *)
   t_outcome : tstate;             (* target_state set by the executor *)
   t_exec : list (path * Z);       (* files the task writes (relative to its sandbox) *)
+  t_ops : list xop;               (* ... and what else it does to the sandboxes afterwards *)
   t_target : tstate;              (* task['target_state'] *)
   t_pub : list tstate             (* states published so far *)
 }.
 
 Definition with_in (t : task) (l : list sd) : task :=
   {| t_uid := t_uid t; t_sb := t_sb t; t_in := l; t_out := t_out t; t_soe := t_soe t;
-     t_outcome := t_outcome t; t_exec := t_exec t; t_target := t_target t; t_pub := t_pub t |}.
+     t_outcome := t_outcome t; t_exec := t_exec t; t_ops := t_ops t; t_target := t_target t; t_pub := t_pub t |}.
 
 Definition with_target (t : task) (s : tstate) : task :=
   {| t_uid := t_uid t; t_sb := t_sb t; t_in := t_in t; t_out := t_out t; t_soe := t_soe t;
-     t_outcome := t_outcome t; t_exec := t_exec t; t_target := s; t_pub := t_pub t |}.
+     t_outcome := t_outcome t; t_exec := t_exec t; t_ops := t_ops t; t_target := s; t_pub := t_pub t |}.
 
 (* advance(task, s): publish; FAILED/CANCELED also set target_state *)
 Definition advance (t : task) (s : tstate) : task :=
   let tg := match s with FAILED | CANCELED => s | _ => t_target t end in
   {| t_uid := t_uid t; t_sb := t_sb t; t_in := t_in t; t_out := t_out t; t_soe := t_soe t;
-     t_outcome := t_outcome t; t_exec := t_exec t; t_target := tg; t_pub := t_pub t ++ [s] |}.
+     t_outcome := t_outcome t; t_exec := t_exec t; t_ops := t_ops t; t_target := tg; t_pub := t_pub t ++ [s] |}.
 
 (* contexts.  side: true = client side (tmgr components) *)
 Definition tmgr_ctx (sb : sandboxes) (pwd : string) : list (string * url) :=
@@ -477,6 +543,7 @@ Fixpoint copy_all (tar : list (path * Z)) (l : list rsd) (fs : fsys) (lg : wlog)
   | RSd a s g :: r =>
       match handle_sd a s g fs with
       | Ok fs' e => copy_all tar r fs' (lg ++ [(e, match file_at e fs' with Some c => c | None => Plain 0 end)])
+      | OkDir fs' e => copy_all tar r fs' lg
       | Fail fs' => {| h_ok := false; h_fs := fs'; h_log := lg |}
       end
   | RTar g :: r =>
@@ -485,7 +552,7 @@ Fixpoint copy_all (tar : list (path * Z)) (l : list rsd) (fs : fsys) (lg : wlog)
       | None => {| h_ok := false; h_fs := fs; h_log := lg |}
       | Some fs1 =>
           match cp_into (Tar tar) "TMPTAR" None g fs1 with
-          | Ok fs' e => copy_all tar r fs' lg
+          | Ok fs' e | OkDir fs' e => copy_all tar r fs' lg
           | Fail fs' => {| h_ok := false; h_fs := fs'; h_log := lg |}
           end
       end
@@ -593,6 +660,7 @@ Fixpoint steps (step : sd -> fsys -> res) (l : list sd) (fs : fsys) (lg : wlog) 
           steps step r fs'
             (if action_eqb (s_act d) Tarball then lg
              else lg ++ [(e, match file_at e fs' with Some c => c | None => Plain 0 end)])
+      | OkDir fs' e => steps step r fs' lg
       | Fail fs' => {| h_ok := false; h_fs := fs'; h_log := lg |}
       end
   end.
@@ -697,7 +765,7 @@ Fixpoint exec_all (l : list task) (fs : fsys) : fsys * list task :=
   | [] => (fs, [])
   | t :: r =>
       let fs1 := match mkdir_p (sandbox_path t) fs with Some f => f | None => fs end in
-      let fs2 := write_files (sandbox_path t) (t_exec t) fs1 in
+      let fs2 := fold_left (fun f o => run_xop o f) (t_ops t) (write_files (sandbox_path t) (t_exec t) fs1) in
       let '(fs', r') := exec_all r fs2 in
       (fs', with_target t (t_outcome t) :: r')
   end.
@@ -713,7 +781,8 @@ Definition pipeline (l : list task) (fs : fsys) : fsys * list task :=
 
 (* ---- a whole case as the application writes it *)
 Record task_in := { ti_uid : string; ti_sb : sandboxes; ti_in : list sdin; ti_out : list sdin;
-                    ti_soe : bool; ti_outcome : tstate; ti_exec : list (path * Z) }.
+                    ti_soe : bool; ti_outcome : tstate; ti_exec : list (path * Z);
+                    ti_ops : list xop }.
 
 (* Task.__init__ -> expand_description: input first, then output *)
 Definition expand_task (ti : task_in) : err + task :=
@@ -723,7 +792,8 @@ Definition expand_task (ti : task_in) : err + task :=
       match expand (ti_out ti) with
       | inl e => inl e
       | inr o => inr {| t_uid := ti_uid ti; t_sb := ti_sb ti; t_in := i; t_out := o; t_soe := ti_soe ti;
-                        t_outcome := ti_outcome ti; t_exec := ti_exec ti; t_target := DONE; t_pub := [] |}
+                        t_outcome := ti_outcome ti; t_exec := ti_exec ti; t_ops := ti_ops ti; t_target := DONE;
+                        t_pub := [] |}
       end
   end.
 
